@@ -6,6 +6,7 @@ import (
 	"io/ioutil"
 	"reflect"
 	"strconv"
+	"strings"
 
 	"github.com/lugu/qiloop/meta/signature"
 	"github.com/lugu/qiloop/type/object"
@@ -336,6 +337,12 @@ func ParsePackage(input []byte) (*PackageDeclaration, error) {
 			return nil, err
 		}
 		return nil, fmt.Errorf("cannot parse IDL: %+v", reflect.TypeOf(root))
+	}
+	for _, decl := range definitions.Types {
+		if s, ok := decl.(*signature.StructType); ok &&
+			strings.Contains(s.Signature(), "<"+recursiveMark) {
+			return nil, fmt.Errorf("structure %s contains itself", s.Name)
+		}
 	}
 	return definitions, nil
 }
